@@ -320,3 +320,26 @@ func H_C06_suffix_key() {
 	vAssert(got == want, "C06 file: keys are compared whole, an already present value is kept once")
 	vReach("end")
 }
+
+// layouts other than gofmt's, and a doc comment that mentions @tag: only the tag literals of fields with
+// a trailing @tag comment change
+func H_C06_file_layouts() {
+	vSetLayout(vndChoice("layout", vNLayouts))
+	defer vSetLayout(0)
+	v := vTagVal("v", 2, true)
+	structs := []vStructSrc{{name: "A", fields: []vField{
+		{name: "X", typ: "string", hasTag: true, tag: "json:\"x\"", doc: "//  doc @tag gorm:\"x\"", comment: "// @tag valid:\"" + v + "\""},
+		{name: "LongerName", typ: "int", hasTag: true, tag: "json:\"n\"   yaml:\"n\"", doc: "// @tag valid:\"required\""},
+		{name: "Z", typ: "[]byte", hasTag: true, tag: "a:\"1\"  b:\"2\"", comment: "//   z  @tag b:\"" + v + "\""},
+	}}}
+	pre, post := "import (\"fmt\")\nvar   _ = fmt.Sprint( 1,2 )\n", "func F( ) { }\n"
+	src, f := vBuildSource(pre, structs, post)
+	got, err := vRunInjector("y.go", src, f)
+	vAssert(err == nil, "C06 layouts: processing succeeds")
+	want := vExpectedSource(pre, structs, post, map[string]string{
+		"A.X": "json:\"x\" valid:\"" + v + "\"",
+		"A.Z": "a:\"1\" b:\"" + v + "\"",
+	})
+	vAssert(got == want, "C06 layouts: every byte outside the annotated fields' tag literals is unchanged")
+	vReach("end")
+}
